@@ -638,28 +638,21 @@ class DiskFile(VirtualFileContainer):
         if not allocated_granules:
             return
 
-        granule = allocated_granules[0]
-        allocated_granules = allocated_granules[1:]
-        pointer = self.seek_granule(granule)
-        skip_bytes = 0
-
+        # Build the stream as it is stored on disk: preamble, file data, postamble
+        stream = []
         if first_granule and preamble:
-            pointer = preamble.write(self.buffer, pointer)
-            skip_bytes += preamble.length
+            stream = [0x00] * preamble.length
+            preamble.write(stream, 0)
+        stream.extend(file_data)
+        if postamble:
+            trailer = [0x00] * postamble.length
+            postamble.write(trailer, 0)
+            stream.extend(trailer)
 
-        if len(file_data) < (DiskConstants.HALF_TRACK_LEN - skip_bytes):
-            pointer = self.write_bytes_to_buffer(pointer, file_data)
-            if postamble:
-                postamble.write(self.buffer, pointer)
-        else:
-            self.write_bytes_to_buffer(pointer, file_data[:DiskConstants.HALF_TRACK_LEN - skip_bytes])
-            self.write_to_granules(
-                file_data[DiskConstants.HALF_TRACK_LEN - skip_bytes:],
-                allocated_granules,
-                None,
-                postamble,
-                first_granule=False
-            )
+        # Each granule in the chain holds the next half track of the stream
+        for index, granule in enumerate(allocated_granules):
+            chunk = stream[index * DiskConstants.HALF_TRACK_LEN:(index + 1) * DiskConstants.HALF_TRACK_LEN]
+            self.write_bytes_to_buffer(self.seek_granule(granule), chunk)
 
     def add_file(self, coco_file):
         """
